@@ -209,7 +209,7 @@ func (w *world) newRG(name string) *sam.ReadGroup {
 	if w.r.Intn(2) == 0 {
 		d = time.Date(2000+w.r.Intn(20), time.Month(1+w.r.Intn(12)), 1+w.r.Intn(28), w.r.Intn(24), w.r.Intn(60), w.r.Intn(60), 0, zones[w.r.Intn(3)])
 	}
-	rg, err := sam.NewReadGroup(name, []string{"", "center"}[w.r.Intn(2)], []string{"", "a description"}[w.r.Intn(2)], []string{"", "lib1"}[w.r.Intn(2)], "",
+	rg, err := sam.NewReadGroup(name, []string{"", "center"}[w.r.Intn(2)], []string{"", "a description", "ends with a blank "}[w.r.Intn(3)], []string{"", "lib1"}[w.r.Intn(2)], "",
 		[]string{"", "ILLUMINA"}[w.r.Intn(2)], []string{"", "unit7"}[w.r.Intn(2)], []string{"", "sampleA"}[w.r.Intn(2)], "", "", d, []int{0, 350}[w.r.Intn(2)])
 	if err != nil {
 		panic(err)
@@ -219,7 +219,7 @@ func (w *world) newRG(name string) *sam.ReadGroup {
 }
 
 func (w *world) newPG(uid string) *sam.Program {
-	p := sam.NewProgram(uid, []string{"", "bwa"}[w.r.Intn(2)], []string{"", "bwa mem -t 4"}[w.r.Intn(2)], "", []string{"", "0.7.17"}[w.r.Intn(2)])
+	p := sam.NewProgram(uid, []string{"", "bwa"}[w.r.Intn(2)], []string{"", "bwa mem -t 4", "cmd with trailing blank "}[w.r.Intn(3)], "", []string{"", "0.7.17"}[w.r.Intn(2)])
 	w.pid(p)
 	return p
 }
@@ -228,7 +228,19 @@ func (w *world) step() {
 	r := w.r
 	nh := len(w.hs)
 	if nh == 0 || (nh < 3 && r.Intn(12) == 0) {
-		h, err := sam.NewHeader(nil, nil)
+		var initial []*sam.Reference
+		if r.Intn(3) == 0 {
+			// references handed to NewHeader rather than added one by one
+			used := map[string]bool{}
+			for i := 0; i < 1+r.Intn(2); i++ {
+				n := names[r.Intn(len(names))]
+				if !used[n] {
+					used[n] = true
+					initial = append(initial, w.newRef(n, lens[r.Intn(2)], r.Intn(5)))
+				}
+			}
+		}
+		h, err := sam.NewHeader(nil, initial)
 		if err == nil {
 			if r.Intn(2) == 0 {
 				h.Version = []string{"1.0", "1.6"}[r.Intn(2)]
@@ -239,11 +251,15 @@ func (w *world) step() {
 				}
 			}
 			if r.Intn(3) == 0 {
-				h.Comments = append(h.Comments, "a comment", "another\tone")
+				h.Comments = append(h.Comments, [][]string{{"a comment", "another\tone"}, {"ends with a blank "}, {""}, {"x", "", "tab at the end\t"}}[r.Intn(4)]...)
 			}
 		}
 		w.hs = append(w.hs, h)
-		w.emit("newheader", tr.M{"res": errRes("nil", err), "kind": "hdr"}, len(w.hs))
+		init := [][]interface{}{}
+		for _, x := range initial {
+			init = append(init, []interface{}{w.rid(x), x.Name(), x.Len()})
+		}
+		w.emit("newheader", tr.M{"res": errRes("nil", err), "kind": "hdr", "init": init}, len(w.hs))
 		return
 	}
 	h := 1 + r.Intn(nh)
